@@ -15,6 +15,7 @@ import (
 	"os"
 	"reflect"
 	"strings"
+	"sync"
 	"unsafe"
 
 	"verif/harness/common"
@@ -384,8 +385,59 @@ func CheckOptic[S any](o Optic[S]) (ok bool) {
 		}
 		keep(s)
 	}
+	// ---- shared mode: an optic is a value (often a package-level variable) used by several goroutines at once,
+	// each on its own structure. Whatever it keeps between Get and Put inside itself shows as a foreign value.
+	sharedCalls++
+	if ok && o.Kind == "lens" && n >= 2 && (p == "C04" || sharedCalls%16 == 0) {
+		const workers, turns = 4, 60
+		var wg sync.WaitGroup
+		msgs := make([]string, workers)
+		for w := 0; w < workers; w++ {
+			wg.Add(1)
+			go func(w int) {
+				defer wg.Done()
+				g := newGuard[S](w)
+				s := &g.s
+				o.Fill(s, w)
+				if o.Write != nil {
+					o.Write(s, o.Vals[w%n])
+				}
+				regions := o.Regions(s)
+				if pn, msg := Derive(func() {
+					for i := 0; i < turns && msgs[w] == ""; i++ {
+						v := o.Vals[(i+w)%n]
+						before := snap(g)
+						o.Put(s, v)
+						if off, same := firstDiff(g, before, bytesOf(g), regions); !same {
+							msgs[w] = fmt.Sprintf("Put(%s) changed the byte at offset %d of this goroutine's structure, outside the focus", show(v), off)
+							return
+						}
+						if got := o.Get(s); !eq(got, v) {
+							msgs[w] = fmt.Sprintf("Get after Put(%s) returned %s", show(v), show(got))
+							return
+						}
+						if have := o.Read(s); !eq(have, o.Expect(v)) {
+							msgs[w] = fmt.Sprintf("after Put(%s) the field holds %s", show(v), show(have))
+						}
+					}
+				}); pn {
+					msgs[w] = "panic: " + msg
+				}
+			}(w)
+		}
+		wg.Wait()
+		for w, m := range msgs {
+			if m != "" {
+				bad("shared-optic", "one optic value used by %d goroutines, each on its own structure: goroutine %d: %s", workers, w, m)
+				break
+			}
+		}
+		Rec.Count("shared_optic_runs", 1)
+	}
 	return
 }
+
+var sharedCalls int
 
 var sink any
 
